@@ -3,7 +3,7 @@ NOTES = ("Solver-based checking of the real code: Kani/CBMC harnesses over roto'
          "emitted cranelift IR with symbolic arguments in z3 (engine T), symbolic interpretation of MIR slices of the LIR evaluator "
          "(engine M). See DESIGN.md, section 10 for the as-built record. Exit 2 = inconclusive (timeout, OOM, vacuous harness, "
          "non-reproducing counterexample, unsupported encoding) and is never reported as 'held'. Genuine defects found on the pinned "
-         "tree were repaired with 'fix:' commits in /repo (listed in known-findings.json under 'fixed'); three are recorded as known findings.")
+         "tree were repaired with 'fix:' commits in /repo (ten, listed in known-findings.json under 'fixed'); four are recorded as known findings (C10 x2, C17, C05).")
 ENGINES = [
     {"name": "K", "path": "/verif/kani", "serves_properties": ["C02", "C05", "C06", "C09", "C10", "C15", "C16", "C17", "C20"],
      "kind_free_text": "Kani 0.68 / CBMC 6.11 proof harnesses (external crate, path dependency on /repo, cfg nlnetlabs_roto_verif), "
@@ -14,10 +14,11 @@ ENGINES = [
                        "every model is replayed against the real JIT"},
     {"name": "B", "path": "/verif/tv/builtins_b.py", "serves_properties": ["C17"],
      "kind_free_text": "MIR bodies of the default runtime's float built-ins (found through their registration in the MIR dump) executed over z3 "
-                       "floating-point terms and compared with the documented IEEE-754 operation; models replayed on the real JIT"},
+                       "floating-point terms and compared with the documented IEEE-754 operation; IpAddr/Prefix and String methods (tv/strdeleg.py) decided to be "
+                       "the documented std operation applied to their parameters in order (uninterpreted functions); models replayed on the real JIT"},
     {"name": "M", "path": "/verif/tv/mir.py", "serves_properties": ["C20"],
-     "kind_free_text": "symbolic interpretation of the nightly MIR dump of lir::eval::eval's instruction arms, compared in z3 with engine T's "
-                       "encoding of the CLIF emitted for the same LIR"},
+     "kind_free_text": "symbolic interpretation of the nightly MIR dump of lir::eval::eval's instruction arms (scalar and memory instructions; Jump/Switch/Call/Return "
+                       "modelled and guarded by a callee fingerprint of their arms), compared in z3 with engine T's encoding of the CLIF emitted for the same LIR"},
 ]
 
 TV = "translation_validation"
